@@ -72,7 +72,7 @@ func C10(c *Case) *Result {
 	}
 
 	// differential: reference Writer -> (upgrade) -> current Reader, against the reference Reader
-	o := GenOpts{MaxJobs: 8, MaxBlock: 64 * 1024, Headerless: true, MixedCase: true}
+	o := GenOpts{SkipOpt: true, MaxJobs: 8, MaxBlock: 64 * 1024, Headerless: true, MixedCase: true}
 	o.Cheap = t.Intn(3) == 0
 	cfg := GenConfig(t, o)
 	maxBlocks := 4
